@@ -326,5 +326,66 @@ fn get_plan<'a>(
     })
 }
 //!end
+
+// ---- spawn_task: tokio::process::Command as a ghost record of what will be executed (ASSUMED builder semantics) ----
+pub mod process {
+    use vstd::prelude::*;
+    pub enum Stdio { Piped, Null, Inherit }
+    impl Stdio {
+        #[verifier::external_body] pub fn piped() -> (r: Stdio) ensures r is Piped { unimplemented!() }
+        #[verifier::external_body] pub fn null() -> (r: Stdio) ensures r is Null { unimplemented!() }
+    }
+}
+pub mod tokio_process {
+    use vstd::prelude::*;
+    use super::*;
+    // std's defaults: no extra arguments, the parent's working directory (None), inherited stdio
+    pub struct Command { pub ghost program: Seq<char>, pub ghost cwd: Option<Seq<char>>, pub ghost args: Seq<Seq<char>>, pub ghost sin: process::Stdio, pub ghost sout: process::Stdio, pub ghost serr: process::Stdio, pub x: u8 }
+    pub struct Child { pub ghost cmd: Command, pub x: u8 }
+    pub open spec fn str_views(a: Seq<String>) -> Seq<Seq<char>> { Seq::new(a.len(), |i: int| a[i]@) }
+    impl Command {
+        #[verifier::external_body] pub fn new(program: &path::Path) -> (r: Command)
+            ensures r.program == program@, r.cwd is None, r.args == Seq::<Seq<char>>::empty(), r.sin is Inherit, r.sout is Inherit, r.serr is Inherit { unimplemented!() }
+        #[verifier::external_body] pub fn current_dir(&mut self, d: &path::Path) -> (r: &mut Command)
+            ensures *r == (Command { cwd: Some(d@), ..*old(self) }), *final(r) == *final(self) { unimplemented!() }
+        #[verifier::external_body] pub fn stdout(&mut self, s: process::Stdio) -> (r: &mut Command)
+            ensures *r == (Command { sout: s, ..*old(self) }), *final(r) == *final(self) { unimplemented!() }
+        #[verifier::external_body] pub fn stderr(&mut self, s: process::Stdio) -> (r: &mut Command)
+            ensures *r == (Command { serr: s, ..*old(self) }), *final(r) == *final(self) { unimplemented!() }
+        #[verifier::external_body] pub fn stdin(&mut self, s: process::Stdio) -> (r: &mut Command)
+            ensures *r == (Command { sin: s, ..*old(self) }), *final(r) == *final(self) { unimplemented!() }
+        // args appends, in order, verbatim
+        #[verifier::external_body] pub fn args(&mut self, a: &Vec<String>) -> (r: &mut Command)
+            ensures *r == (Command { args: old(self).args + str_views(a@), ..*old(self) }), *final(r) == *final(self) { unimplemented!() }
+        // spawn starts exactly what the builder describes (or fails)
+        #[verifier::external_body] pub fn spawn(&mut self) -> (r: Result<Child, std::io::Error>)
+            ensures *final(self) == *old(self), r matches Ok(ch) ==> ch.cmd == *old(self) { unimplemented!() }
+    }
+}
+//!fn src/app/run.rs spawn_task rules=R1,R12,R17 props=C11
+pub(crate) fn spawn_task(
+    command_work_path: &path::Path,
+    command_path: &path::Path,
+    command_args: &Option<Vec<String>>,
+) -> ⟦(r: ⟧Result<tokio_process::Child, MonorailError>⟦)⟧
+@    ensures
+@        // C11: the executable is started as the resolved file, in the target's directory, with exactly the argmap's arguments (verbatim,
+@        // in order; none when there are none), stdin closed, both output streams captured
+@        r matches Ok(ch) ==> ch.cmd.program == command_path@ && ch.cmd.cwd == Some(command_work_path@)
+@            && ch.cmd.args == (match command_args { Some(a) => tokio_process::str_views(a@), None => Seq::<Seq<char>>::empty() })
+@            && ch.cmd.sin is Null && ch.cmd.sout is Piped && ch.cmd.serr is Piped, // [C11]
+{
+    let mut cmd = tokio_process::Command::new(command_path);
+    cmd.current_dir(command_work_path)
+        .stdout(process::Stdio::piped())
+        .stderr(process::Stdio::piped())
+        // parallel execution makes use of stdin impractical
+        .stdin(process::Stdio::null());
+    if let Some(ca) = command_args {
+        cmd.args(ca);
+    }
+    cmd.spawn().map_err(MonorailError::from)
+}
+//!end
 } // verus!
 fn main() {}
